@@ -36,6 +36,13 @@ type Variant struct {
 	// Exits: the program has the family of functions that are left (return, break, continue, caught
 	// throw) from an operand position while other operands wait on the stack (exits.go).
 	Exits bool `json:"exits,omitempty"`
+	// Out: the program has the family of functions that write to the host (print / println / debug with no,
+	// one and several arguments, empty texts, several writes per call, writes in loops, in try blocks, before
+	// a throw, by threads); the model predicts the text every call writes (service3.go).
+	Out bool `json:"out,omitempty"`
+	// Single: the program declares singletons whose values are the compiler's defaults and functions that
+	// read and change them (through extraction parameters and directly) (service3.go).
+	Single bool `json:"single,omitempty"`
 }
 
 // state is the model of the globals.
@@ -53,6 +60,20 @@ type state struct {
 	winIncl    bool
 	// relay, relayB: written only by the last stage of a hand-over chain of threads
 	relay, relayB int64
+
+	// singletons $Stats and $Flags (compiler defaults, whatever the initial values of the globals are)
+	sHits   []int64
+	sTotal  int64
+	sLast   *string
+	sTag    string
+	sBoxN   int64
+	sBoxL   []int64
+	fActive bool
+	fLevel  int64
+	// out: the text the current call writes to the host (reset before every call); outAlt: further texts
+	// that are acceptable as well (cores of one call writing side by side)
+	out    string
+	outAlt []string
 
 	// bookkeeping for the non-triviality measurement
 	written   map[string]bool
@@ -115,7 +136,7 @@ type fnSpec struct {
 	// (nil: impossible in this state).
 	GenOK   func(r *fw.Rng, st *state, e env) []valuni.Val
 	GenFail func(r *fw.Rng, st *state, e env) []valuni.Val
-	// Only: restricts the spec to variants having the feature ("trigger", "spawn", "leaky", "relay", "exits").
+	// Only: restricts the spec to variants having the feature ("trigger", "spawn", "leaky", "relay", "exits", "out", "single").
 	Only string
 	// Tag: construct tag attached to every history that calls the function.
 	Tag string
@@ -1076,6 +1097,8 @@ fn fanout_fail() {
 	addStoredIterSpecs(add)
 	addRelaySpecs(add)
 	addExitSpecs(add)
+	addOutSpecs(add)
+	addSingletonSpecs(add)
 	return out
 }
 
@@ -1126,6 +1149,10 @@ func (v Variant) has(feature string) bool {
 		return v.Relay
 	case "exits":
 		return v.Exits
+	case "out":
+		return v.Out
+	case "single":
+		return v.Single
 	}
 	return false
 }
@@ -1150,6 +1177,9 @@ func (v Variant) Source() string {
 	sb.WriteString(globalsSource(v.Init))
 	if v.Exits {
 		sb.WriteString(exitGlobals)
+	}
+	if v.Single {
+		sb.WriteString(singletonDefs)
 	}
 	sb.WriteString("\n")
 	var parts []string
